@@ -6,6 +6,9 @@ V = os.path.dirname(os.path.dirname(os.path.abspath(__file__)))
 # id -> (technique, level text, level note, design ref)
 PROOF_NOTE = "Lean 4.33 kernel; axioms propext/Quot.sound/Classical.choice only (audited per run); translator go/extract and the layout interpreter Model/Layout.lean validated against the real IEncode/IDecode by the correspondence run; Go runtime/stdlib modelled (DESIGN.md 2.6)."
 CLAIMED = {
+ "C16": ("Lean 4 theorems by induction on a hand model of the two SMPP and two SMGP parsers and of serialisation (fuel-bounded loops mirroring the Go loops): parse∘serialise for any emission order, agreement of the entry points on every well-formed triplet sequence with duplicates, no-fabrication for arbitrary octets, consistent truncation of over-long values; correspondence with all four Go entry points",
+         "Unbounded proofs on the model for sets/sequences of any size and values of any length; the model is compared with ReadTLVs, ReadTLVs1, ReadOptions and ParseOptions on serialised sets (incl. 65531..70000-octet values), shuffled duplicate sequences, all strings of <= 2 octets and mutated triplet strings. Map iteration order is the adversary (emission order is a parameter). no-fabrication is proved for the slice-based parser and checked on the implementation for the reader-based ones.",
+         PROOF_NOTE, "DESIGN.md 4/C16"),
  "C17": ("Lean 4 theorems by linear arithmetic (omega) over all field values / all 64-bit ids on a model of CombineMsgID/SplitMsgID/MsgID2String/MsgIDString2Uint64 with explicit uint64 wrap-around; string form by induction on the fixed-width decimal printer; model tied by correspondence",
          "Unbounded proof of field positions, split∘combine, combine∘split on all 2^64 ids and the 22-digit string round trip; the model is compared with the Go functions on each field's full range at both extremes of the others, bit patterns and 20k-1M random tuples and ids (fmt.Sscanf is modelled only on well-formed 22-digit strings).",
          PROOF_NOTE + " fmt.Sprintf/Sscanf width formatting modelled.", "DESIGN.md 4/C17"),
